@@ -24,7 +24,8 @@ ASSUMPTIONS = ["set members as delete targets are outside the reference evaluato
 REACH = [("yamlpath/processor.py", "delete_nodes,_delete_nodes", "delete_nodes / _delete_nodes")]
 SIZES = {"quick": 40000, "thorough": 800000}
 REQUIRED_COUNTERS = ["delete_steps", "delete_root_steps", "delete_steps_double_match", "reload_checked", "long_list_cases",
-                     "root_in_collector_cases", "delete_collector_slice_operands", "docs_with_aliased_containers"]
+                     "root_in_collector_cases", "delete_collector_slice_operands", "docs_with_aliased_containers",
+                     "shared_array_slice_deletes"]
 
 SEEDS = [
     ("[a, [], b]", [("INDEX", 1)]), ("{a: {}, b: 1}", [("KEY", "a")]), ("[a, b, c]", [("ALL",)]),
@@ -268,6 +269,21 @@ def run_shard(ctx):
                 ctx.count("delete_steps_double_match")
             continue
         hist = []
+        if rng.random() < 0.03:
+            # one Array held at two places (anchor + alias), sliced through both routes at once: each element goes once
+            n1, n2 = rng.randrange(3, 7), rng.randrange(3, 6)
+            text = "{nested: [&row [%s], *row, [%s]], defaults: &ports [%s], web: *ports, admin: [22, 2222, 3389]}" % (
+                ", ".join("r%d" % i for i in range(n1)), ", ".join("v%d" % i for i in range(n2)), ", ".join(str(80 + i) for i in range(n1)))
+            data = yp.load(text)
+            i = rng.randrange(0, 3)
+            j = i + rng.choice([1, 2, 3])
+            if rng.random() < 0.25:
+                i, j = -rng.choice([2, 3]), rng.choice([0, -1])
+            segs = rng.choice([[("KEY", "nested"), ("ALL",), ("SLICE", i, j)], [("ALL",), ("SLICE", i, j)],
+                               [("KEY", "nested"), ("INDEX", 1), ("SLICE", i, j)], [("TRAVERSE",), ("SLICE", i, j)]])
+            ctx.count("shared_array_slice_deletes")
+            ES.step_delete(ctx, data, text, segs, "delete", hist, reload_claimed=False)
+            continue
         for step in range(rng.choice([1, 1, 2, 3])):
             vocab = gp.doc_vocab(data)
             ok = False
